@@ -216,6 +216,10 @@ def emit_layer(L: J, c: str) -> str:
                 for o in L[key]) + f"</{sec}>"
     if L.get("imports"):
         x += "<IMPORT-REFS>" + "".join(_ref("IMPORT", r) for r in L["imports"]) + "</IMPORT-REFS>"
+    if L.get("cprefs"):
+        x += "<COMPARAM-REFS>" + "".join(
+            _ref("COMPARAM", r)[:-2] + f"><SIMPLE-VALUE>{n + 1}</SIMPLE-VALUE></COMPARAM-REF>"
+            for n, r in enumerate(L["cprefs"])) + "</COMPARAM-REFS>"
     if L["kind"] == "PROTOCOL":
         x += _ref("COMPARAM-SPEC", L["cps"])
         if L.get("pstack"):
@@ -266,10 +270,27 @@ def emit_cps(cps: J) -> str:
     return x + "</PROT-STACKS></COMPARAM-SPEC></ODX>"
 
 
+def emit_css(css: J) -> str:
+    """a COMPARAM-SUBSET document (communication parameters COMPARAM-REFs point to)"""
+    c = css["name"]
+    dop_id = "CSS.dop"
+    x = HDR + f'<COMPARAM-SUBSET ID={quoteattr(css["id"])} CATEGORY="TRANS">' + \
+        _names(c, marker(c, "", css["id"])) + "<COMPARAMS>"
+    for cp in css["comparams"]:
+        x += (f'<COMPARAM ID={quoteattr(cp["id"])} PARAM-CLASS="COM" CPTYPE="STANDARD" '
+              f'CPUSAGE="ECU-COMM">' + _names(cp["name"], marker(c, "", cp["id"])) +
+              f'<PHYSICAL-DEFAULT-VALUE>{cp["default"]}</PHYSICAL-DEFAULT-VALUE>'
+              f'<DATA-OBJECT-PROP-REF ID-REF={quoteattr(dop_id)}/></COMPARAM>')
+    x += ("</COMPARAMS>" f'<DATA-OBJECT-PROPS><DATA-OBJECT-PROP ID={quoteattr(dop_id)}>'
+          "<SHORT-NAME>dop_any</SHORT-NAME><COMPU-METHOD><CATEGORY>IDENTICAL</CATEGORY></COMPU-METHOD>"
+          + _DCT8 + '<PHYSICAL-TYPE BASE-DATA-TYPE="A_UINT32"/></DATA-OBJECT-PROP></DATA-OBJECT-PROPS>')
+    return x + "</COMPARAM-SUBSET></ODX>"
+
+
 def emit_all(model: J, reverse_layers: bool = False) -> List[str]:
-    """one XML string per document: containers first, then comparam specs"""
+    """one XML string per document: containers first, then comparam specs and subsets"""
     return [emit_doc(d, reverse_layers) for d in model["docs"]] + \
-        [emit_cps(s) for s in model.get("cps", [])]
+        [emit_cps(s) for s in model.get("cps", [])] + [emit_css(s) for s in model.get("css", [])]
 
 
 # ---------------------------------------------------------------------------
@@ -342,6 +363,8 @@ def sites(model: J) -> List[Site]:
             lm = marker(c, l, L["id"])
             for n, r in enumerate(L.get("parents", [])):
                 out.append(Site((lm, f"parent:{n}"), "PARENT", r, c, l))
+            for n, r in enumerate(L.get("cprefs", [])):
+                out.append(Site((lm, f"cp:{n}"), "COMPARAM", r, c, l))
             if L["kind"] == "PROTOCOL":
                 out.append(Site((lm, "cps"), "COMPARAM-SPEC", L["cps"], c, l))
                 if L.get("pstack"):
@@ -461,6 +484,12 @@ class Resolver:
             self.cps_obj[marker(s["name"], "", s["id"])] = s
             for ps in s["stacks"]:
                 _add(fr, ps["id"], marker(s["name"], "", ps["id"]))
+        self.by_css: Dict[str, Dict[str, List[str]]] = {}
+        for s in model.get("css", []):
+            fr = self.by_css.setdefault(s["name"], {})
+            _add(fr, s["id"], marker(s["name"], "", s["id"]))
+            for cp in s["comparams"]:
+                _add(fr, cp["id"], marker(s["name"], "", cp["id"]))
         for doc in model["docs"]:
             c = doc["name"]
             cf = self.by_cont.setdefault(c, {})
@@ -513,7 +542,7 @@ class Resolver:
         dr = ref.get("dr")
         if dr:
             table = {"LAYER": self.by_layer, "CONTAINER": self.by_cont,
-                     "COMPARAM-SPEC": self.by_cps}.get(dr[0], {})
+                     "COMPARAM-SPEC": self.by_cps, "COMPARAM-SUBSET": self.by_css}.get(dr[0], {})
             return list(table.get(dr[1], {}).get(i, []))
         loc = self.by_layer[l].get(i, [])
         if loc:
@@ -1080,10 +1109,21 @@ def generate(r: random.Random, force_leak: bool = False, unclear: bool = False) 
         model["cps"].append({"name": f"cps{i}", "id": "CPS.spec",
                              "stacks": [{"id": "PS.x", "name": "ps_x"},
                                         {"id": "PS.y", "name": "ps_y"}]})
+    # communication parameter subsets: the same local IDs in every document (the DOCREF of a
+    # COMPARAM-REF says which one is meant)
+    for i in range(r.choice([1, 2, 2])):
+        model.setdefault("css", []).append(
+            {"name": f"css{i}", "id": "CSS.sub",
+             "comparams": [{"id": "CP.x", "name": "cp_x", "default": str(10 + i)},
+                           {"id": "CP.y", "name": "cp_y", "default": str(20 + i)}]})
     for c in tp.conts:
         layers = []
         for t in tp.in_cont(c):
             L = b.layer(t)
+            if t["kind"] != "ECU-SHARED-DATA" and r.random() < 0.6:
+                L["cprefs"] = [rid(r.choice(["CP.x", "CP.y"]),
+                                   ["COMPARAM-SUBSET", r.choice(model["css"])["name"]])
+                               for _ in range(r.choice([1, 2, 3]))]
             if t["kind"] == "PROTOCOL":
                 L["cps"] = rid("CPS.spec", ["COMPARAM-SPEC", r.choice(model["cps"])["name"]])
                 L["pstack"] = r.choice(["ps_x", "ps_y"])
